@@ -75,6 +75,41 @@ fn run_sort(msgs: Vec<DltMessage>, r: &LcR, window: u8, min_delay_us: u64) -> Re
     Ok(out.into_inner())
 }
 
+/// also tells whether a message was released while input was still to come (rendezvous producer)
+fn run_sort_measured(msgs: Vec<DltMessage>, r: &LcR, window: u8, min_delay_us: u64) -> Result<(Vec<DltMessage>, bool), String> {
+    use std::sync::atomic::{AtomicUsize, Ordering};
+    let n = msgs.len();
+    let (tx, rx) = std::sync::mpsc::sync_channel(0);
+    let sent = std::sync::Arc::new(AtomicUsize::new(0));
+    let sent2 = sent.clone();
+    let prod = std::thread::spawn(move || {
+        for m in msgs {
+            if tx.send(m).is_err() {
+                break;
+            }
+            sent2.fetch_add(1, Ordering::SeqCst);
+        }
+    });
+    let out = std::cell::RefCell::new(vec![]);
+    let early = std::cell::Cell::new(false);
+    let res = buffer_sort_messages(
+        rx,
+        &|m| {
+            if sent.load(Ordering::SeqCst) + 1 < n {
+                early.set(true);
+            }
+            out.borrow_mut().push(m);
+            Ok(())
+        },
+        r,
+        window,
+        min_delay_us,
+    );
+    let _ = prod.join();
+    res.map_err(|e| format!("buffer_sort_messages error {}", e))?;
+    Ok((out.into_inner(), early.get()))
+}
+
 fn check_perm(input: &[DltMessage], out: &[DltMessage]) -> Result<(), String> {
     ensure_eq!(out.len(), input.len(), "number of messages after sorting");
     let mut sorted: Vec<&DltMessage> = out.iter().collect();
@@ -93,9 +128,20 @@ fn ordered(v: &SortCase, rep: &mut Rep) -> Result<(), String> {
     let mut msgs = vec![];
     let mut calcs = vec![];
     let mut used = std::collections::HashSet::new();
+    // sticky: the lifecycles of one ECU follow each other (as on a real ECU); otherwise their messages interleave
+    let sticky = v.clock_off % 2 == 0;
+    let mut current: std::collections::HashMap<u8, usize> = Default::default();
+    rep.label_if(sticky, "sequential_lifecycles_per_ecu");
     for (i, e) in v.evs.iter().enumerate() {
         clock += e.dt as u64 * 100;
-        let li = (e.lc_sel as usize * starts.len()) >> 16;
+        let mut li = (e.lc_sel as usize * starts.len()) >> 16;
+        if sticky {
+            let c = current.entry(starts[li].0).or_insert(li);
+            if li > *c {
+                *c = li;
+            }
+            li = *c;
+        }
         let (ecu, start) = starts[li];
         used.insert(li);
         let mut m = DltMessage {
@@ -146,7 +192,9 @@ fn ordered(v: &SortCase, rep: &mut Rep) -> Result<(), String> {
     rep.label_if(inversions, "input_inverted");
     rep.label_if(used.len() >= 2, "ge2_lifecycles");
     rep.nontrivial = used.len() >= 2 && inversions;
-    let out = run_sort(msgs.clone(), &r, v.window, min_delay_us)?;
+    // (a producer thread per case is expensive: measured in a quarter of the cases)
+    let (out, early) = if v.evs.len() % 4 == 0 { run_sort_measured(msgs.clone(), &r, v.window, min_delay_us)? } else { (run_sort(msgs.clone(), &r, v.window, min_delay_us)?, false) };
+    rep.label_if(early, "released_before_end_of_input");
     check_perm(&msgs, &out)?;
     for w in out.windows(2) {
         let (a, b) = (calcs[w[0].index as usize], calcs[w[1].index as usize]);
@@ -193,7 +241,7 @@ pub fn def(tier: Tier) -> PropertyDef {
         rule: "A (permutation): messy traces with lifecycle ids/table from the real detector or arbitrary ids (known, 0, unknown) against a table of real Lifecycle values, window 1..10 s, min delay 0..60 s; output must be a permutation (whole-message equality). B (ordering): 1..5 lifecycles on 1..3 ECUs with known starts, non-decreasing reception clock, per message a delay in [0, min delay] (all times multiples of 0.1 ms so the bound holds exactly), control requests and messages whose start+timestamp exceeds the reception time (capped); output ordered by (calculated time, input index). Non-trivial (B): >=2 lifecycles used and >=1 inversion in the input.",
         assumptions: vec!["calculated time recomputed by the harness from the statement: min(lifecycle start + timestamp, reception); reception for control requests", "input indices increase in input order (as every producer in adlt numbers them)"],
         subs: vec![
-            sub("ordered_under_bound", tier.pick(600_000, 8_000_000), sort_case(60), ordered).rates(&[("input_inverted", 0.3), ("ge2_lifecycles", 0.3), ("capped_at_reception", 0.2), ("control_request", 0.2), ("delayed_message", 0.4)]).boxed(),
+            sub("ordered_under_bound", tier.pick(600_000, 8_000_000), sort_case(60), ordered).rates(&[("input_inverted", 0.3), ("ge2_lifecycles", 0.3), ("capped_at_reception", 0.2), ("control_request", 0.2), ("delayed_message", 0.4), ("released_before_end_of_input", 0.1)]).boxed(),
             sub("ordered_long", tier.pick(30_000, 400_000), sort_case(600), ordered).boxed(),
             sub("permutation_any_input", tier.pick(400_000, 5_000_000), (prop::collection::vec(ev(3), 0..80), 1u8..=10, prop_oneof![Just(0u32), 0u32..600_000], prop::collection::vec(any::<u16>(), 0..8), any::<bool>()), any_input)
                 .rates(&[("table_from_detector", 0.3), ("arbitrary_ids", 0.3)])
